@@ -7,7 +7,6 @@ import (
 )
 
 // ---- account management entry points are outside the session-state property: record the hand-over
-var verifAccCalls []string
 
 //verif:override github.com/tinode/chat/server.replyCreateUser
 func verifReplyCreateUser(s *Session, msg *ClientComMessage, rec *auth.Rec) {
